@@ -160,7 +160,7 @@ def main():
         ],
         "checks": checks,
         "not_applicable": na,
-        "notes": "All checks are property-based testing / fuzzing (generated inputs, histories, schedules, faults against explicit oracles). exit 0 held / 1 VIOLATION / 2 inconclusive. See DESIGN.md.",
+        "notes": "All checks are property-based testing / fuzzing (generated inputs, histories, schedules, faults against explicit oracles). exit 0 held / 1 VIOLATION / 2 inconclusive. See DESIGN.md. Hooks: the three source_commits only add cfg-guarded code; one later fix commit (8cc14da, D31: register the waker before the check) had to move the guarded yield point 'waker.register' together with the line it stands in front of - with the feature off that line does not exist.",
     }
     json.dump(m, open(os.path.join(ROOT, "MANIFEST.json"), "w"), indent=1)
     print("wrote MANIFEST.json with", len(checks), "checks,", len(na), "not_applicable")
